@@ -155,12 +155,13 @@ theorem ex_unformat_all : exX.unformatMatching none exSpans (-1) = .ok exU := by
   | error e => rw [h'] at h; cases h
   | ok y => rw [h'] at h; cases h; rfl
 
-/-- the tuple form `('bold',)` the Python method really passes gives the same -/
-example : (exX.formatMatching (.list [.str "bold".toList]) exSpans (-1)).toOption = some exYall := by
+/-- a tuple of formats (what the Python method really passes on: `format` is the `*format` tuple),
+    here `(1,)` — the SGR code of bold — gives the same -/
+example : (exX.formatMatching (.list [.int 1]) exSpans (-1)).toOption = some exYall := by
   decide +kernel
 
-/-- a named format removed from the first match only -/
-example : (exX.unformatMatching (some (.list [.str "red".toList])) exSpans 1).toOption = some exU := by
+/-- one format, `(31,)`, removed from the first match only -/
+example : (exX.unformatMatching (some (.list [.int 31])) exSpans 1).toOption = some exU := by
   decide +kernel
 
 /-- `count=0`: nothing -/
@@ -261,8 +262,10 @@ theorem unmatching_error_pure (x : AStr) (a : Option SArg) (spans : List (Int ×
   rw [h] at h'
   cases h'
 
--- an unknown format name is an error (from the first match on)
-example : (exX.formatMatching (.str "nonsense".toList) exSpans (-1)).toOption = none := by decide +kernel
+-- an argument of an unsupported type is an error (raised at the first match); with no match at
+-- all the same call succeeds: the argument is only looked at by `apply_formatting`
+example : (exX.formatMatching (.bad true) exSpans (-1)).toOption = none := by decide +kernel
+example : (exX.formatMatching (.bad true) [] (-1)).toOption = some exX := by decide +kernel
 
 /-- `format_matching(spec)` without any format (the empty tuple is falsy): nothing happens -/
 theorem matching_nil_settings (x : AStr) (a : SArg) (spans : List (Int × Int)) (count : Int)
